@@ -827,6 +827,12 @@ func (x *Exec) havocForCall(call *ast.CallExpr, st, entry *State, env *Env, touc
 			return
 		case *types.Func:
 			fn = o
+		case *types.Var:
+			// call of a function value: its funcval contract tells what it may modify
+			if ct, ok := x.w.Contracts[x.pkg.Name+".funcval."+o.Name()]; ok && len(ct.Modifies) > 0 {
+				x.havocExplicit(ct, call, st, entry, env, touched, modArrs, allHeaps)
+			}
+			return
 		default:
 			return
 		}
@@ -892,7 +898,7 @@ func (x *Exec) havocForCall(call *ast.CallExpr, st, entry *State, env *Env, touc
 		fd, sc := x.contractCtx(ct, fn)
 		if fd == nil {
 			// explicit-param contract: modifies are X[*] of arguments
-			*allHeaps = true
+			x.havocExplicit(ct, call, st, entry, env, touched, modArrs, allHeaps)
 			return
 		}
 		sig := fn.Type().(*types.Signature)
@@ -1325,5 +1331,73 @@ func (x *Exec) scopeLoopBody(bodyStart int) {
 			keep = append(keep, r)
 		}
 		x.fc.dead = append(keep, [2]int{bodyStart, end})
+	}
+}
+
+// havocExplicit applies the modifies clause of a contract with an explicit parameter list
+// (interface method, external function, function value) for the loop havoc: "p[*]" names a
+// parameter; the array of the corresponding argument (its base slice, evaluated at loop entry)
+// may be written. Anything it cannot resolve havocs all heaps.
+func (x *Exec) havocExplicit(ct *Contract, call *ast.CallExpr, st, entry *State, env *Env, touched map[string]bool, modArrs map[string][]string, allHeaps *bool) {
+	names := []string{}
+	for _, part := range splitTop(splitParams(ct.Params)[0], ',') {
+		f := strings.Fields(strings.TrimSpace(part))
+		if len(f) > 0 {
+			names = append(names, f[0])
+		}
+	}
+	for _, m := range ct.Modifies {
+		m = strings.TrimSpace(m)
+		if !strings.HasSuffix(m, "[*]") {
+			*allHeaps = true
+			return
+		}
+		pn := strings.TrimSuffix(m, "[*]")
+		idx := -1
+		for i, n := range names {
+			if n == pn {
+				idx = i
+			}
+		}
+		if idx < 0 || idx >= len(call.Args) {
+			*allHeaps = true
+			return
+		}
+		arg := ast.Unparen(call.Args[idx])
+		for {
+			se, ok := arg.(*ast.SliceExpr)
+			if !ok {
+				break
+			}
+			arg = ast.Unparen(se.X)
+		}
+		ok := func() (ok bool) {
+			defer func() {
+				if r := recover(); r != nil {
+					if _, isAbort := r.(abortErr); isAbort {
+						ok = false
+						return
+					}
+					panic(r)
+				}
+			}()
+			x.specDepth++
+			defer func() { x.specDepth-- }()
+			sv, isSl := x.eval(arg, entry, env).(Slice)
+			if !isSl {
+				return false
+			}
+			for _, lf := range x.leaves(sv.Elem) {
+				k := heapKey(sv.Elem, lf.Path)
+				x.heap(st, sv.Elem, lf)
+				touched[k] = true
+				modArrs[k] = append(modArrs[k], sv.Arr)
+			}
+			return true
+		}()
+		if !ok {
+			*allHeaps = true
+			return
+		}
 	}
 }
